@@ -5,6 +5,7 @@ import Ivy.Mon.C03
 import Ivy.Mon.C04
 import Ivy.Mon.C06
 import Ivy.Mon.C07
+import Ivy.L1.Progress
 import Ivy.Drv.Util
 /-! T-replay driver for the loop: reads the log of /verif/harness/loop_h.c, feeds the environment
 records to the L1 machine and compares the library records with the machine's outputs. -/
@@ -380,7 +381,7 @@ def run : IO Unit := do
   let evs := s.evs.toList
   for (nm, v) in [("C01", Ivy.Mon.C01.verdict evs), ("C02", Ivy.Mon.C02.verdict evs), ("C03", Ivy.Mon.C03.verdict evs),
                   ("C04", Ivy.Mon.C04.verdict evs), ("C06", Ivy.Mon.C06.verdict evs), ("C07", Ivy.Mon.C07.verdict evs),
-                  ("C07spin", Ivy.Mon.C07.spinVerdict evs)] do
+                  ("C07spin", Ivy.Mon.C07.spin4Verdict evs), ("C07idle", Ivy.L1.Progress.idleVerdict evs)] do
     match v with
     | none => out.putStrLn s!"MON {nm} ok"
     | some e => out.putStrLn s!"MON {nm} VIOLATION {e}"
